@@ -683,8 +683,8 @@ def check_stride(ck, prog):
     ck.floor("C15-STRIDE", 9)
 
 
-def check_delta(ck, prog):
-    ck.rule("C15-DELTA", "delta loops: identical history indexing; encoder stores input, decoder stores output")
+def check_delta(ck, prog, rule="C15-DELTA"):
+    ck.rule(rule, "delta loops: identical history indexing; encoder stores input, decoder stores output")
     fns = [("copy_and_encode", "delta_encoder.c"), ("encode_in_place", "delta_encoder.c"),
            ("decode_buffer", "delta_decoder.c")]
     idx_r, idx_w = set(), set()
@@ -717,11 +717,11 @@ def check_delta(ck, prog):
         info[nm] = (rd, writes, stored)
         idx_r |= set(rd)
         idx_w |= set(writes)
-    ck.ob("C15-DELTA", "same-read-index", idx_r == {"coder->pos + distance & 255"}, "src/liblzma/delta",
+    ck.ob(rule, "same-read-index", idx_r == {"coder->pos + distance & 255"}, "src/liblzma/delta",
           "history read index in all three loops: %s" % sorted(idx_r), key="DELTA:read-index")
-    ck.ob("C15-DELTA", "same-write-index", idx_w == {"coder->pos-- & 255"}, "src/liblzma/delta",
+    ck.ob(rule, "same-write-index", idx_w == {"coder->pos-- & 255"}, "src/liblzma/delta",
           "history write index in all three loops: %s" % sorted(idx_w), key="DELTA:write-index")
-    ck.ob("C15-DELTA", "encoder-stores-input", info["copy_and_encode"][2] == ["in[i]"] and
+    ck.ob(rule, "encoder-stores-input", info["copy_and_encode"][2] == ["in[i]"] and
           info["encode_in_place"][2] == ["buffer[i]"], "src/liblzma/delta/delta_encoder.c",
           "encoders store the original byte: %s / %s" % (info["copy_and_encode"][2], info["encode_in_place"][2]),
           key="DELTA:enc-store")
@@ -730,7 +730,7 @@ def check_delta(ck, prog):
     order = [ex.show(n) for b, i, e in sorted(f.iter_elems(), key=lambda t: (ex.line(t[2]) or 0))
              for (l, r, op, n) in ex.writes(e) if "buffer[i]" in ex.show(n) or "history" in ex.show(n)]
     okp = len(order) >= 2 and "history" in order[0] and order[-1].startswith("buffer[i] -=")
-    ck.ob("C15-DELTA", "in-place-order", okp, common.where(f),
+    ck.ob(rule, "in-place-order", okp, common.where(f),
           "encode_in_place saves the original byte to history before overwriting it: %s" % order,
           key="DELTA:in-place-order")
     f = prog.fn("decode_buffer", "delta_decoder.c")
@@ -738,7 +738,7 @@ def check_delta(ck, prog):
              for (l, r, op, n) in ex.writes(e) if "buffer[i]" in ex.show(n) or "history" in ex.show(n)]
     okd = len(order) >= 2 and order[0].startswith("buffer[i] +=") and "history" in order[1] and \
         info["decode_buffer"][2] == ["buffer[i]"]
-    ck.ob("C15-DELTA", "decoder-order", okd, common.where(f),
+    ck.ob(rule, "decoder-order", okd, common.where(f),
           "decoder adds the history byte, then stores the reconstructed byte: %s" % order, key="DELTA:dec-order")
     # props
     pe = prog.fn("lzma_delta_props_encode", "delta_encoder.c")
@@ -746,10 +746,27 @@ def check_delta(ck, prog):
     we = [ex.show(n) for b, i, e in pe.iter_elems() for (l, r, op, n) in ex.writes(e) if ex.show(l) == "out[0]"]
     wd = [ex.show(n) for b, i, e in pd.iter_elems() for (l, r, op, n) in ex.writes(e) if "dist" in ex.show(l)]
     np_ = lambda w: w.replace("(", "").replace(")", "")
-    ck.ob("C15-DELTA", "props", [np_(w) for w in we] == ["out[0] = opt->dist - 1"] and
+    ck.ob(rule, "props", [np_(w) for w in we] == ["out[0] = opt->dist - 1"] and
           any(np_(w).endswith("dist = props[0] + 1") for w in wd),
           common.where(pe), "props: %s / %s" % (we, wd), key="DELTA:props")
-    ck.floor("C15-DELTA", 6)
+    # the decoder cannot follow a change of the encoder's distance or history in the middle of a stream (the Filter Flags were
+    # written when the Block started): delta_encoder_update() leaves the coder's own state alone and only forwards
+    fu = prog.fn("delta_encoder_update", "delta_encoder.c")
+    ck.saw_function(fu)
+    touched = sorted({ex.show(l) for b, i, e in fu.iter_elems() for (l, r, op, n) in ex.writes(e)
+                      if any(x.get("k") == "mem" and x.get("rec") == "lzma_delta_coder" and x.get("f") != "next"
+                             for x in ex.walk(l))} |
+                     {"%s(%s, ...)" % (c.get("m") or c.get("fn"), ex.show(c["args"][0])) for b, i, e in fu.iter_elems()
+                      for c in ex.calls(e, into_refs=False)
+                      if c.get("fn") in ("memset", "memcpy", "memmove", "__builtin_memset", "__builtin_memcpy") and c["args"]
+                      and any(x.get("k") == "mem" and x.get("rec") == "lzma_delta_coder" for x in ex.walk(c["args"][0]))})
+    fwd = any(c.get("fn") == "lzma_next_filter_update" for b, i, e in fu.iter_elems() for c in ex.calls(e, into_refs=False))
+    ck.ob(rule, "update-keeps-state", not touched and fwd, common.where(fu),
+          "delta_encoder_update only forwards to the next filter; distance, pos and history are untouched" if not touched and fwd else
+          "delta_encoder_update() modifies %s in the middle of a stream: the Delta decoder keeps its distance and history (nothing "
+          "in the stream tells it otherwise), so everything encoded after lzma_filters_update() decodes to different bytes" % touched
+          if touched else "delta_encoder_update() does not forward to lzma_next_filter_update()", key="DELTA:update-keeps-state")
+    ck.floor(rule, 7)
 
 
 def shortest_path(f, src, dst_pred, avoid=()):
@@ -1016,8 +1033,35 @@ def check_compact(ck, prog, rule="C15-PROTO"):
                   "simple_code(): the buffer is compacted with memmove(coder->buffer, coder->buffer + %s, ...) but coder->size is "
                   "reduced by %s: [pos, size) then covers bytes that are not there (data duplicated or lost when the output is "
                   "consumed in small pieces)" % (X, subs or "nothing"), key="PROTO:compact-by-same-amount")
+            # ... and by the value X had when the bytes were moved: no store to X between the memmove and the subtraction
+            order = [(ii, "sub" if (ex.show(l) == "coder->size" and op == "-=") else "reset")
+                     for bb, ii, ee in f.iter_elems() if bb.id == b.id
+                     for (l, r, op, nd) in ex.writes(ee) if (ex.show(l) == "coder->size" and op == "-=") or ex.show(l) == X]
+            order.sort()
+            sub_i = [ii for ii, w in order if w == "sub"]
+            early = [ii for ii, w in order if w == "reset" and sub_i and ii < sub_i[0]]
+            ck.ob(rule, "compact-before-reset", not early, common.where(f, c),
+                  "simple_code: size -= %s is computed before %s is reset" % (X, X) if not early else
+                  "simple_code(): %s is overwritten before `coder->size -= %s` is evaluated: the subtraction uses the new value, so "
+                  "coder->size still counts the bytes that memmove() discarded and stale bytes of the buffer are filtered and "
+                  "emitted again" % (X, X), key="PROTO:compact-before-reset")
     if n < 1:
         raise AnalysisBroken("simple_code: compaction memmove not found")
+
+
+def check_eof_needs_input(ck, prog, rule="C15-PROTO"):
+    """copy_or_code(): as the last coder of a chain it decides itself that the end was reached.  LZMA_FINISH alone does not
+    mean that: lzma_bufcpy() may have stopped because the output was full.  The store end_was_reached = true is reached only
+    through `*in_pos == in_size` (or, with a next coder, through its LZMA_STREAM_END)."""
+    from . import oblig
+    from .oblig import MP
+    oblig.evaluate(ck, prog, rule, [
+        MP("eof-needs-all-input", "copy_or_code", "simple_coder.c",
+           [("cmp", "deref:in_pos", "var:in_size"), ("cmp", "var:ret", "enum:LZMA_STREAM_END")],
+           ("write", "field:end_was_reached"), plain=True,
+           why="end_was_reached is set only when all input was copied (or the next coder finished): otherwise simple_code() flushes "
+               "its held-back bytes unfiltered and returns LZMA_STREAM_END while input remains, whenever the output buffer filled first"),
+    ], floor=None)
 
 
 def check_proto(ck, prog):
@@ -1033,6 +1077,7 @@ def check_proto(ck, prog):
            why="filtering never happens for LZMA_SYNC_FLUSH (held-back bytes could not be flushed)"),
     ]
     oblig.evaluate(ck, prog, "C15-PROTO", table, floor=None)
+    check_eof_needs_input(ck, prog)
     f = prog.fn("call_filter", SC)
     ck.saw_function(f)
     adv = [(ex.show(l), op, ex.show(r)) for b, i, e in f.iter_elems() for (l, r, op, n) in ex.writes(e)
